@@ -32,10 +32,13 @@ def podAvail (q : PodA) : Bool := podActive q && q.ready
 /-- phase: 0 "" · 1 Pending · 2 Running · 3 Succeeded · 4 Failed · 5 Aborted -/
 structure JobA where
   id : Nat
-  pod : Nat       -- Spec.PodRef (0 = nil)
-  ns : Nat        -- Spec.PodRef.Namespace
+  pod : Nat       -- Spec.PodRef.{Namespace,Name} as the id of the pod so named (0 = PodRef nil; an id that no pod
+                  -- has = a namespace/name that resolves to nothing, e.g. the empty name of a UID-only reference)
+  ns : Nat        -- Spec.PodRef.Namespace (0 = empty)
   phase : Nat
   passedAnn : Bool  -- annotation descheduler.koordinator.sh/passed-arbitration
+  uid : Nat       -- Spec.PodRef.UID as the id of the pod that has this UID (a pod's UID is its id; 0 = empty UID,
+                  -- an id that no pod has = a stale UID)
 deriving Repr, DecidableEq
 
 /-- limits: a negative value stands for a nil pointer. -/
@@ -101,14 +104,24 @@ def limitOff (m : Int) : Bool := m ≤ 0
 
 /-- jobs counted by filterMaxMigratingGlobally for pod `p` -/
 def globalJobs (st : ArbSt) (ca : Bool) (p : PodA) : List JobA :=
-  st.jobs.filter fun j => live st.arbitrated ca j && j.pod != 0 && j.pod != p.id
+  st.jobs.filter fun j => live st.arbitrated ca j && j.pod != 0 && j.uid != p.id
 
 def passGlobal (cfg : ArbCfg) (st : ArbSt) (ca : Bool) (p : PodA) : Bool :=
   gateSkipped cfg 5 || limitOff cfg.maxGlobal || decide (((globalJobs st ca p).length : Int) < cfg.maxGlobal)
 
-/-- existingPodMigrationJob(v): by pod UID or by namespace/name -/
-def hasJob (st : ArbSt) (ca : Bool) (v : PodA) : Bool :=
+/-- existingPodMigrationJob(v), first lookup: the available jobs under IndexJobByPodUID = string(pod.UID),
+    `podRef != nil && podRef.UID == pod.UID` -/
+def hasJobByUID (st : ArbSt) (ca : Bool) (v : PodA) : Bool :=
+  st.jobs.any fun j => live st.arbitrated ca j && j.pod != 0 && j.uid == v.id
+
+/-- existingPodMigrationJob(v), second lookup: the available jobs under IndexJobPodNamespacedName = "ns/name",
+    `podRef.Namespace == pod.Namespace && podRef.Name == pod.Name` (whatever the job's PodRef.UID is) -/
+def hasJobByName (st : ArbSt) (ca : Bool) (v : PodA) : Bool :=
   st.jobs.any fun j => live st.arbitrated ca j && j.pod == v.id
+
+/-- existingPodMigrationJob(v): by pod UID, and `if !existing` by namespace/name (a fall-back, not an else) -/
+def hasJob (st : ArbSt) (ca : Bool) (v : PodA) : Bool :=
+  if hasJobByUID st ca v then true else hasJobByName st ca v
 
 /-- pods counted by filterMaxMigratingPerNode for pod `p` -/
 def nodePods (st : ArbSt) (ca : Bool) (p : PodA) : List PodA :=
@@ -120,7 +133,7 @@ def passNode (cfg : ArbCfg) (st : ArbSt) (ca : Bool) (p : PodA) : Bool :=
     || decide (((nodePods st ca p).length : Int) < cfg.maxNode)
 
 def nsJobs (st : ArbSt) (ca : Bool) (p : PodA) : List JobA :=
-  st.jobs.filter fun j => live st.arbitrated ca j && j.pod != 0 && j.pod != p.id && j.ns == p.ns
+  st.jobs.filter fun j => live st.arbitrated ca j && j.pod != 0 && j.uid != p.id && j.ns == p.ns
 
 def passNs (cfg : ArbCfg) (st : ArbSt) (ca : Bool) (p : PodA) : Bool :=
   gateSkipped cfg 4 || limitOff cfg.maxNs || decide (((nsJobs st ca p).length : Int) < cfg.maxNs)
@@ -128,10 +141,11 @@ def passNs (cfg : ArbCfg) (st : ArbSt) (ca : Bool) (p : PodA) : Bool :=
 def addNew (xs : List Nat) (x : Nat) : List Nat := if xs.contains x then xs else xs ++ [x]
 
 /-- migratingPods of filterMaxMigratingOrUnavailablePerWorkload: distinct pods of the same workload
-    (found in the API) that have an available job in the pod's namespace, the pod itself excluded. -/
+    (found in the API by the job's PodRef namespace/name) that have an available job in the pod's namespace; jobs
+    carrying the pod's own UID are skipped (`podRef.UID == pod.UID`), as in the global and per-namespace counts. -/
 def migrating (st : ArbSt) (ca : Bool) (p : PodA) : List Nat :=
   (st.jobs.filter fun j =>
-      live st.arbitrated ca j && j.ns == p.ns && j.pod != 0 && j.pod != p.id &&
+      live st.arbitrated ca j && j.ns == p.ns && j.pod != 0 && j.uid != p.id &&
       (match findPod st j.pod with
        | some q => q.wl != 0 && q.wl == p.wl
        | none => false)).foldl (fun acc j => addNew acc j.pod) []
